@@ -1,10 +1,8 @@
-(* C13 - every entry handed to the session is released exactly once.
-   Stage 1 (unrepaired code): see C08.v; the theorems follow the repairs. *)
+(* C13 - every entry handed to the session is released exactly once. (theorems follow) *)
 From stdpp Require Import gmap.
 From P9 Require Import Model.Path Model.Session.
 
-(* in-place walk of an open directory fid keeps the old entry's Readdir: use after release *)
-Example C13_refuted_inplace_walk_keeps_file :
+Example C13_inplace_walk_drops_file :
   bad_use (final sess0 (srun sess0 [(OAttach 0 NOFID, [Tok 0 true 0]); (OOpen 0 0, []);
-                                    (OWalk 0 0 [[97]], [Tok 0 true 1]); (ORead 0, [])])) = [0].
+                                    (OWalk 0 0 [[97]], [Tok 0 true 1]); (ORead 0, [])])) = [].
 Proof. vm_compute. reflexivity. Qed.
